@@ -1,7 +1,8 @@
 SPECIFICATION Spec
 CONSTANTS
   Nodes = {"n1"}
-  Focus = TRUE
+  ScanFirst = "n1"
+  Focus = "on"
   MaxOps = 8
 INVARIANT DownWhenSettled
 CONSTRAINT Emit
